@@ -76,6 +76,26 @@ def classify(ans):
     return 'internal:' + str(ans.get('type', ans.get('status')))
 
 
+CONSTRAINT_POS = {'neg_head', 'notnot_head', 'neg_head_body', 'constraint_body', 'constraint_not', 'constraint_cond', 'constraint_agg', 'constraint_theory_cond'}
+POS_HEAD_NONNORMAL = {'disj_elem', 'choice_elem', 'head_agg_elem'}
+
+
+def property_class(position, form):
+    """the property's own reading, independent of the regenerated decisions (which a change of the source would drag along):
+    future atoms only in normal-rule heads and anywhere in constraints (rules with a negative head count as constraints); past and
+    initially atoms not in positive head positions"""
+    pos = position.split('@')[0]
+    net = form[3] - form[1]
+    past = net < 0 or form[4] == 1
+    if pos in CONSTRAINT_POS:
+        return 'accept'
+    if pos in ('normal_head', 'fact'):
+        return 'reject-past' if past else 'accept'
+    if pos in POS_HEAD_NONNORMAL:
+        return 'reject-future' if net > 0 else ('reject-past' if past else 'accept')
+    return 'reject-future' if net > 0 else 'accept'
+
+
 PRECEDING = ['', ':- zz1, zz2.\n', 'not zz1 :- zz2.\n', 'zz1 :- zz2.\n', 'zz1 ; zz2 :- zz3.\n', "zz1' :- zz2.\n", ":- zz1, zz2'.\n"]
 
 
@@ -121,7 +141,10 @@ def run(ctx):
         # the initially form combined with primes is rejected earlier by the code ("cannot be used with primes"); not generated here
         hist[want] = hist.get(want, 0) + 1
         bad = None
-        if got != want:
+        prop = property_class(r['position'], r['f'])
+        if got != prop:
+            bad = 'position %s, form %s, part %s: telingo %s, the property says %s' % (r['position'], r['form'], r['part'], got, prop)
+        elif got != want:
             bad = 'position %s, form %s, part %s: telingo %s, property/model %s' % (r['position'], r['form'], r['part'], got, want)
         elif got == 'accept':
             v = m.split()
@@ -174,4 +197,7 @@ def replay(ctx, payload):
         return False
     a = ctx.impl().run([{'cmd': 'transform', 'texts': [inp['text']]}])[0]
     m = ctx.model().run([inp['line']])[0]
+    f = next((x for x in FORMS if x[0] == inp.get('form')), None)
+    if f is not None and inp.get('position') and classify(a) != property_class(inp['position'], f):
+        return True
     return classify(a) != (m or 'x').split()[0]
